@@ -15,7 +15,7 @@ from .verifier import Verifier
 from . import solve
 from . import lemmas
 
-CONTRACT_MODULES = ["schedule", "basic_schedules", "multistage", "twolevel", "mixed", "seq_basic", "hrevolve", "seq_periodic", "seq_tables", "seq_revolve", "seq_disk"]
+CONTRACT_MODULES = ["schedule", "basic_schedules", "multistage", "twolevel", "mixed", "seq_basic", "hrevolve", "seq_periodic", "seq_tables", "seq_revolve", "seq_disk", "seq_hopt"]
 VERIF = os.path.dirname(os.path.dirname(os.path.abspath(__file__)))
 
 
